@@ -74,6 +74,98 @@ fn case(t: Tier) -> BoxedStrategy<Case> {
         .boxed()
 }
 
+fn mixed_case(t: Tier) -> BoxedStrategy<Case> {
+    prop_oneof![4 => case(t), 1 => scene_case()].boxed()
+}
+
+/// Directed scenes (constructed, not filtered): a short queue, strictly increasing timestamps, made of
+/// orders that show nothing and cannot replenish (iceberg, display 0, hidden > 0), orders that
+/// replenish from hidden (iceberg / auto reserve) and plain ones; a few small matches that end on
+/// fill boundaries pass over the former and cycle the latter; the continuation brings every
+/// dormant order back (in listing order or reversed) and trades one fill at a time. The position of
+/// a dormant order in the queue shows in no listing and no match result until then.
+fn scene_spec() -> BoxedStrategy<crate::spec::OrderSpec> {
+    use crate::spec::*;
+    let base = |kind: Kind, display: u64, hidden: u64, threshold: u64, amount: Option<u64>, auto: bool| OrderSpec {
+        kind,
+        display,
+        hidden,
+        buy: false,
+        tif: Tif::Gtc,
+        ts: 0,
+        threshold,
+        amount,
+        auto,
+        trail: 0,
+        lastref: 0,
+        offset: 0,
+        peg: 0,
+        own_price: None,
+    };
+    prop_oneof![
+        3 => (1u64..=6).prop_map(move |h| base(Kind::Iceberg, 0, h, 0, None, false)),
+        3 => (1u64..=3, 1u64..=8).prop_map(move |(d, h)| base(Kind::Iceberg, d, h, 0, None, false)),
+        2 => (1u64..=3, 1u64..=8, 0u64..=2, 1u64..=3).prop_map(move |(d, h, t, a)| base(Kind::Reserve, d, h, t, Some(a), true)),
+        2 => (1u64..=4).prop_map(move |d| base(Kind::Standard, d, 0, 0, None, false)),
+        1 => (1u64..=3, 1u64..=4).prop_map(move |(d, h)| base(Kind::Reserve, d, h, 0, Some(0), false)),
+    ]
+    .boxed()
+}
+
+fn scene_case() -> BoxedStrategy<Case> {
+    use crate::gen::Profile;
+    let add = (any::<u16>(), scene_spec()).prop_map(|(slot, spec)| Op::Add { slot, spec });
+    let small_match = prop_oneof![
+        3 => (1u64..=9).prop_map(MatchSize::Exact),
+        4 => (1u8..=4).prop_map(MatchSize::AfterFills),
+        1 => (1u8..=3).prop_map(MatchSize::FirstK),
+    ]
+    .prop_map(|size| Op::Match { size });
+    let step = prop_oneof![
+        6 => small_match.clone(),
+        2 => add.clone(),
+        1 => (any::<u16>(), 0u64..=3).prop_map(|(k, qty)| Op::UpdateQty { target: Target::Resting(k), qty }),
+        1 => any::<u16>().prop_map(|k| Op::Cancel { target: Target::Resting(k) }),
+    ];
+    (
+        0u64..=200,
+        crate::gen::id_pool(8, 12),
+        proptest::collection::vec(add, 3..=7),
+        proptest::collection::vec(step.clone(), 0..=6),
+        0u8..4,
+        proptest::collection::vec(step, 0..=2),
+        (1u64..=3, any::<bool>(), 1usize..=6, any::<bool>()),
+    )
+        .prop_map(|(price, pool, adds, steps, path, mid, (qty, rev, ones, by_fill))| {
+            let mut ops = adds;
+            ops.extend(steps);
+            let mut continuation = mid;
+            continuation.push(Op::Revive { qty, rev });
+            for _ in 0..ones {
+                continuation.push(Op::Match { size: if by_fill { MatchSize::AfterFills(1) } else { MatchSize::Exact(1) } });
+            }
+            continuation.push(Op::Match { size: MatchSize::AllPlus1 });
+            Case {
+                prefix: History {
+                    zeros: true,
+                    price,
+                    profile: Profile::Small,
+                    ts_mode: TsMode::Increasing,
+                    pool,
+                    ops,
+                    ghost: None,
+                    hold: false,
+                    gen_start: 0,
+                    wrap_ok: false,
+                    max_rounds: 0,
+                },
+                path,
+                continuation,
+            }
+        })
+        .boxed()
+}
+
 fn normalise(r: &OpResult) -> OpResult {
     match r {
         OpResult::Updated(Err(_)) => OpResult::Updated(Err("error".into())),
@@ -152,6 +244,7 @@ pub fn eval(c: &Case, st: &mut Stats, excuse_kf: bool) -> Result<Verdict, String
     let no_stale_resting = resting.iter().all(|id| !stale_at_snapshot.contains(id));
     // continuation on the original (through the interpreter, which resolves targets) ...
     let k0 = it.concrete.len();
+    let revived0 = it.facts.revived;
     let mut partial_match = false;
     for op in &c.continuation {
         // (read-only calls, rebuilds and ghost operations are not part of a continuation)
@@ -167,6 +260,11 @@ pub fn eval(c: &Case, st: &mut Stats, excuse_kf: bool) -> Result<Verdict, String
         if it.dead {
             break;
         }
+    }
+    match it.facts.revived - revived0 {
+        0 => {}
+        1 => st.count("continuation/revives_one_dormant_order"),
+        _ => st.count("continuation/revives_two_or_more_dormant_orders"),
     }
     if it.dead {
         st.count("continuation_aborted_on_original");
@@ -299,7 +397,7 @@ pub fn run(cfg: &RunCfg) -> Report {
     let excuse = known.listed("C11", "KF-C11-1");
     let tier = cfg.tier;
     let n = cfg.cases(160_000, 2_400_000);
-    rep.absorb("restore_differential", explore(cfg, "C11", n, move || case(tier), move |c: &Case, st| eval(c, st, excuse).map(|_| ())));
+    rep.absorb("restore_differential", explore(cfg, "C11", n, move || mixed_case(tier), move |c: &Case, st| eval(c, st, excuse).map(|_| ())));
     for f in known.for_property("C11") {
         let hit = crate::known::read_witness(&cfg.root, f)
             .and_then(|v| load_case::<Case>(&v).ok())
